@@ -263,13 +263,15 @@ def enum_resolution(seed):
                 if kind == "upgrade" and cand and first_choice:
                     hi = cand[0]
                     # resolvable together with what the first target settled on
-                    joint = any(hi in c and any(q.cpvstr == first_choice[0].cpvstr for q in c) and H.buildable_in_order(c) for c in H.all_closed_sets(allp))
+                    r1, _, vdb1, f1, _ = H.resolve(kind, src_d, inst_d, [t1])
+                    settled = {p.cpvstr for p in H.final_state(vdb1, r1) if p.key != hi.key} if not f1 else None
+                    joint = settled is not None and any(hi in c and settled <= {q.cpvstr for q in c} and H.buildable_in_order(c) for c in H.all_closed_sets(allp))
                     asserted["highest"] += joint
                     t2_fail = any(f[0] == t2 for f in failures)
                     got = [p for p in fin if p.key == hi.key]
                     if joint and (t2_fail or not any(p.fullver == hi.fullver for p in got)):
-                        fails.append({"model": model, "detail": f"upgrade of {t1} then {t2} in one resolver: highest version {hi.cpvstr} is resolvable together with {first_choice[0].cpvstr} "
-                                      f"(a dependency-closed selection with both can be merged in dependency order) but {'the target failed' if t2_fail else 'the plan leaves ' + str([p.cpvstr for p in got])}; plan {ops}; source {src_d} installed {inst_d}"})
+                        fails.append({"model": model, "detail": f"upgrade of {t1} then {t2} in one resolver: highest version {hi.cpvstr} is resolvable together with everything the plan for {t1} settled on "
+                                      f"(a dependency-closed selection containing all of it can be merged in dependency order) but {'the target failed' if t2_fail else 'the plan leaves ' + str([p.cpvstr for p in got])}; plan {ops}; source {src_d} installed {inst_d}"})
                 if kind == "min_install":
                     inst_ok = [p for p in vdb if atom(t2).match(p)]
                     asserted["reuse"] += bool(inst_ok)
